@@ -18,15 +18,32 @@ func stdEval() rel.Attr {
 	return rel.NewTupleAttr("eval",
 		//TODO: eval needs to be changed to only evaluate simple expression
 		// e.g. no functions, no math operations etc only simple values
-		rel.NewNativeFunctionAttr("value", evalExpr),
+		rel.NewNativeFunctionAttr("value", safeEvalExpr),
 		//TODO: eval.expr
 	)
 }
 
+// stdEvalUnsafe is //eval.value of the full library: the source it evaluates sees the full library.
+func stdEvalUnsafe() rel.Attr {
+	return rel.NewTupleAttr("eval",
+		rel.NewNativeFunctionAttr("value", evalExpr),
+	)
+}
+
 func evalExpr(ctx context.Context, v rel.Value) (rel.Value, error) {
+	return evalExprWithScope(ctx, v, rel.Scope{})
+}
+
+// safeEvalExpr is //eval.value of the safe library: the source it evaluates sees the safe library only,
+// so that //eval.value cannot be used to leave a sandbox.
+func safeEvalExpr(ctx context.Context, v rel.Value) (rel.Value, error) {
+	return evalExprWithScope(ctx, v, SafeStdScope())
+}
+
+func evalExprWithScope(ctx context.Context, v rel.Value, scope rel.Scope) (rel.Value, error) {
 	switch val := v.(type) {
 	case rel.String, rel.Bytes:
-		evaluated, err := EvaluateExpr(ctx, ".", val.String())
+		evaluated, err := EvalWithScope(ctx, ".", val.String(), scope)
 		if err != nil {
 			panic(err)
 		}
